@@ -126,7 +126,8 @@ CHECKS = {
         "known section consumed exactly; no entry loop stops while a complete entry is left). Section arms: code, debug, other (quick), functions (thorough); "
         "the strings and imports arms are OPEN (44 GB / no bounded run closes since the all-or-nothing repair) - those two sections are covered by the fixed-shape round trips C10.rt.shape.strings / .import only. CRC burst lemmas L0-L3 on the REAL "
         "table and the mechanically extracted REAL loop body over the full 2^32/2^40 domains, loop coverage contract of nvm_crc32, whole-function value against the "
-        "bit-serial CRC-32 of the property's polynomial for buffers <= 6 bytes (bounded), header validator contract. "
+        "bit-serial CRC-32 of the property's polynomial for buffers <= 6 bytes (bounded), a fixed-shape file with one appended byte is accepted only if the checksum "
+        "over the whole body incl. the tail matches (bounded), header validator contract. "
         "The induction from the lemmas to 'every burst <= 32 bits is refused' is argued (glue), not machine-checked.",
    ref="DESIGN 5/C12", note=TB + " Tails / damage wider than 32 bits: probabilistic, not claimed.",
    tech="CBMC DFCC function + loop contracts on the real nvm_format.c; algebraic lemmas on the real CRC table/step"),
